@@ -116,6 +116,16 @@ pub fn directed() -> Vec<Program> {
     out.push(prog_on(zoo_extended(), vec![
         op("Extended", vec![Sel::obj("named", vec![t(), fld("name"), on("Cat", vec![fld("nick"), fld("lives")]), on("Person", vec![fld("age")])]), Sel::obj("me", vec![fld("age"), Sel::obj("pets", vec![t(), on("Cat", vec![fld("nick")])])])]),
     ], |_| {}));
+    // 12. one type condition reached twice; the enum, the custom scalar and the fragment appear only the second time
+    out.push(prog(vec![
+        frag("DogLate", "Dog", vec![fld("barks")]),
+        op("Twice", vec![
+            Sel::obj("animals", vec![t(), on("Dog", vec![fld("name")]), on("Cat", vec![fld("lives")])]),
+            Sel::obj("pet", vec![t(), on("Dog", vec![fld("color"), fld("born"), sp("DogLate")]), on("Cat", vec![fld("born")])]),
+            Sel::obj("dog", vec![fld("id")]),
+            Sel::obj("named", vec![t(), on("Dog", vec![Sel::obj("owner", vec![fld("name")])])]),
+        ]),
+    ], |_| {}));
     // 11. the same schema, the extension's implementor only as a runtime type
     out.push(prog_on(zoo_extended(), vec![
         op("ExtendedPlain", vec![Sel::obj("named", vec![t(), fld("name")]), Sel::obj("me", vec![fld("age"), fld("name")])]),
